@@ -12,30 +12,32 @@ namespace Tromp.Ring
 
 abbrev Ptr := Nat
 
-structure Heap where
-  next : Ptr → Ptr
-  prev : Ptr → Ptr
+variable {P : Type} [DecidableEq P]
+
+structure Heap (P : Type) where
+  next : P → P
+  prev : P → P
 
 namespace Heap
 
 /-- all elements freshly constructed: `next = this`, `prev = this`. -/
-def init : Heap := ⟨id, id⟩
+def init : Heap P := ⟨id, id⟩
 
-def setNext (h : Heap) (a b : Ptr) : Heap := { h with next := fun x => if x = a then b else h.next x }
-def setPrev (h : Heap) (a b : Ptr) : Heap := { h with prev := fun x => if x = a then b else h.prev x }
+def setNext (h : Heap P) (a b : P) : Heap P := { h with next := fun x => if x = a then b else h.next x }
+def setPrev (h : Heap P) (a b : P) : Heap P := { h with prev := fun x => if x = a then b else h.prev x }
 
-@[simp] theorem setNext_next (h : Heap) (a b x : Ptr) : (h.setNext a b).next x = if x = a then b else h.next x := rfl
-@[simp] theorem setNext_prev (h : Heap) (a b x : Ptr) : (h.setNext a b).prev x = h.prev x := rfl
-@[simp] theorem setPrev_prev (h : Heap) (a b x : Ptr) : (h.setPrev a b).prev x = if x = a then b else h.prev x := rfl
-@[simp] theorem setPrev_next (h : Heap) (a b x : Ptr) : (h.setPrev a b).next x = h.next x := rfl
+@[simp] theorem setNext_next (h : Heap P) (a b x : P) : (h.setNext a b).next x = if x = a then b else h.next x := rfl
+@[simp] theorem setNext_prev (h : Heap P) (a b x : P) : (h.setNext a b).prev x = h.prev x := rfl
+@[simp] theorem setPrev_prev (h : Heap P) (a b x : P) : (h.setPrev a b).prev x = if x = a then b else h.prev x := rfl
+@[simp] theorem setPrev_next (h : Heap P) (a b x : P) : (h.setPrev a b).next x = h.next x := rfl
 
 end Heap
 
 /-- `list_elem::is_linked()` -/
-def isLinked (this : Ptr) (h : Heap) : Bool := h.next this != this
+def isLinked (this : P) (h : Heap P) : Bool := h.next this != this
 
 /-- `list_elem::unlink()` -/
-def unlink (this : Ptr) (h : Heap) : Heap :=
+def unlink (this : P) (h : Heap P) : Heap P :=
   let n := h.next this
   let p := h.prev this
   let h := h.setPrev n p
@@ -44,14 +46,14 @@ def unlink (this : Ptr) (h : Heap) : Heap :=
   h.setPrev this this
 
 /-- `list::push_front(t)`; `hd` is the list object itself (the sentinel element). -/
-def pushFront (hd t : Ptr) (h : Heap) : Heap :=
+def pushFront (hd t : P) (h : Heap P) : Heap P :=
   let h := h.setNext t (h.next hd)
   let h := h.setPrev t hd
   let h := h.setPrev (h.next hd) t
   h.setNext hd t
 
 /-- `list::push_back(t)` -/
-def pushBack (hd t : Ptr) (h : Heap) : Heap :=
+def pushBack (hd t : P) (h : Heap P) : Heap P :=
   let h := h.setPrev t (h.prev hd)
   let h := h.setNext t hd
   let h := h.setNext (h.prev hd) t
@@ -59,7 +61,7 @@ def pushBack (hd t : Ptr) (h : Heap) : Heap :=
 
 /-- `list_elem::operator=(list_elem&& r)`: `this` takes `r`'s place in `r`'s ring, `r` ends up unlinked.
     (`list(list&&)` and `list_elem(list_elem&&)` are this on a freshly initialised `this`.) -/
-def moveAssign (this r : Ptr) (h : Heap) : Heap :=
+def moveAssign (this r : P) (h : Heap P) : Heap P :=
   if this ≠ r then
     let h := h.setNext this (h.next r)
     let h := h.setPrev this r
@@ -70,61 +72,61 @@ def moveAssign (this r : Ptr) (h : Heap) : Heap :=
 
 /-- the elements an iterator visits from `begin()` (= `next` of the sentinel) until it equals `end()` (= the
     sentinel); `fuel` bounds the walk (a well-formed ring of `n` elements needs `n + 1`). -/
-def walk (h : Heap) (hd : Ptr) : Nat → Ptr → List Ptr
+def walk (h : Heap P) (hd : P) : Nat → P → List P
   | 0, _ => []
   | fuel + 1, p => if p = hd then [] else p :: walk h hd fuel (h.next p)
 
-def toList (h : Heap) (hd : Ptr) (fuel : Nat) : List Ptr := walk h hd fuel (h.next hd)
+def toList (h : Heap P) (hd : P) (fuel : Nat) : List P := walk h hd fuel (h.next hd)
 
 /-- the same walk through `prev` (what `invariant_check` also follows). -/
-def walkBack (h : Heap) (hd : Ptr) : Nat → Ptr → List Ptr
+def walkBack (h : Heap P) (hd : P) : Nat → P → List P
   | 0, _ => []
   | fuel + 1, p => if p = hd then [] else p :: walkBack h hd fuel (h.prev p)
 
-def toListBack (h : Heap) (hd : Ptr) (fuel : Nat) : List Ptr := walkBack h hd fuel (h.prev hd)
+def toListBack (h : Heap P) (hd : P) (fuel : Nat) : List P := walkBack h hd fuel (h.prev hd)
 
 /-- `list::empty()` : `begin() == end()` -/
-def isEmpty (hd : Ptr) (h : Heap) : Bool := h.next hd == hd
+def isEmpty (hd : P) (h : Heap P) : Bool := h.next hd == hd
 
 /-- `list::~list()` with `delete_disposer`, as far as the ring is concerned: walk from `begin()`, advance, then
     destroy the element (`~list_elem` = `unlink`); finally `~list_elem` of the sentinel.  `fuel` as in `walk`. -/
-def disposeLoop (hd : Ptr) : Nat → Ptr → Heap → Heap
+def disposeLoop (hd : P) : Nat → P → Heap P → Heap P
   | 0, _, h => h
   | fuel + 1, i, h => if i = hd then h else
       let nxt := h.next i
       disposeLoop hd fuel nxt (unlink i h)
 
-def listDtor (hd : Ptr) (fuel : Nat) (h : Heap) : Heap :=
+def listDtor (hd : P) (fuel : Nat) (h : Heap P) : Heap P :=
   unlink hd (disposeLoop hd fuel (h.next hd) h)
 
 /-! ### operations of the abstract specification (what the World model does with its lists) -/
 
 /-- the ring operations the library performs, as a script. -/
-inductive Op
-  | newList (hd : Ptr)              -- `list()`            (nothing happens in the heap)
-  | pushFront (hd t : Ptr)
-  | pushBack (hd t : Ptr)
-  | unlink (x : Ptr)                -- `unlink()` / `~list_elem()` of an element
-  | moveList (new old : Ptr)        -- `list(list&&)` : `new` freshly constructed
-  | dropList (hd : Ptr)             -- `~list()` with every element already gone (ignore_disposer lists)
-  | disposeList (hd : Ptr)          -- `~list()` with delete_disposer: every element destroyed, then the sentinel
+inductive Op (P : Type)
+  | newList (hd : P)              -- `list()`            (nothing happens in the heap)
+  | pushFront (hd t : P)
+  | pushBack (hd t : P)
+  | unlink (x : P)                -- `unlink()` / `~list_elem()` of an element
+  | moveList (new old : P)        -- `list(list&&)` : `new` freshly constructed
+  | dropList (hd : P)             -- `~list()` with every element already gone (ignore_disposer lists)
+  | disposeList (hd : P)          -- `~list()` with delete_disposer: every element destroyed, then the sentinel
   deriving Repr, DecidableEq
 
 /-- abstract state: which addresses are list objects, and the contents of each. -/
-structure Abs where
-  heads : List Ptr
-  lists : Ptr → List Ptr
+structure Abs (P : Type) where
+  heads : List P
+  lists : P → List P
 
-def Abs.init : Abs := ⟨[], fun _ => []⟩
+def Abs.init : Abs P := ⟨[], fun _ => []⟩
 
-def Abs.set (a : Abs) (hd : Ptr) (l : List Ptr) : Abs := { a with lists := fun x => if x = hd then l else a.lists x }
+def Abs.set (a : Abs P) (hd : P) (l : List P) : Abs P := { a with lists := fun x => if x = hd then l else a.lists x }
 
 /-- an address is in use if it is a list object or an element of one. -/
-def Abs.used (a : Abs) (y : Ptr) : Prop := ∃ hd ∈ a.heads, y ∈ hd :: a.lists hd
+def Abs.used (a : Abs P) (y : P) : Prop := ∃ hd ∈ a.heads, y ∈ hd :: a.lists hd
 
-instance (a : Abs) (y : Ptr) : Decidable (a.used y) := by unfold Abs.used; exact inferInstance
+instance (a : Abs P) (y : P) : Decidable (a.used y) := by unfold Abs.used; exact inferInstance
 
-def Abs.step (a : Abs) : Op → Abs
+def Abs.step (a : Abs P) : Op P → Abs P
   | .newList hd => { a with heads := hd :: a.heads, lists := fun x => if x = hd then [] else a.lists x }
   | .pushFront hd t => a.set hd (t :: a.lists hd)
   | .pushBack hd t => a.set hd (a.lists hd ++ [t])
@@ -137,7 +139,7 @@ def Abs.step (a : Abs) : Op → Abs
 
 /-- what the C++ requires of the caller (each is guaranteed by the World invariant `WF`: an expectation, handle or
     monitor is pushed only while it is on no list, list objects are distinct from elements, …). -/
-def Abs.legal (a : Abs) : Op → Prop
+def Abs.legal (a : Abs P) : Op P → Prop
   | .newList hd => ¬ a.used hd
   | .pushFront hd t => hd ∈ a.heads ∧ ¬ a.used t
   | .pushBack hd t => hd ∈ a.heads ∧ ¬ a.used t
@@ -146,11 +148,11 @@ def Abs.legal (a : Abs) : Op → Prop
   | .dropList hd => hd ∈ a.heads ∧ a.lists hd = []
   | .disposeList hd => hd ∈ a.heads
 
-instance (a : Abs) (op : Op) : Decidable (a.legal op) := by
+instance (a : Abs P) (op : Op P) : Decidable (a.legal op) := by
   cases op <;> unfold Abs.legal <;> exact inferInstance
 
 /-- the heap side of each operation. -/
-def exec (a : Abs) (h : Heap) : Op → Heap
+def exec (a : Abs P) (h : Heap P) : Op P → Heap P
   | .newList _ => h
   | .pushFront hd t => pushFront hd t h
   | .pushBack hd t => pushBack hd t h
@@ -159,7 +161,7 @@ def exec (a : Abs) (h : Heap) : Op → Heap
   | .dropList hd => unlink hd h
   | .disposeList hd => listDtor hd ((a.lists hd).length + 1) h
 
-def run : Abs × Heap → List Op → Abs × Heap
+def run : Abs P × Heap P → List (Op P) → Abs P × Heap P
   | s, [] => s
   | (a, h), op :: ops => run (a.step op, exec a h op) ops
 
